@@ -3018,7 +3018,10 @@ class MNOT(M_Pattern_One):
         return self.static_tags
 
     def _leaf_asts(self) -> tp_Set[type[AST]] | None:
-        leaf_asts = _LEAF_ASTS_FUNCS.get((p := self.pat).__class__, _leaf_asts_default)(p)
+        if not ((p := self.pat) is ... or isinstance(p, type)):  # only a pure type pattern matches ALL nodes of its types and so can exclude them, anything else may fail on some nodes of those types which this MNOT then matches
+            return ASTS_LEAF__ALL
+
+        leaf_asts = _LEAF_ASTS_FUNCS.get(p.__class__, _leaf_asts_default)(p)
 
         if not leaf_asts:
             if leaf_asts is None:
